@@ -162,3 +162,34 @@ def loc_of(span):
     if not span:
         return None
     return "%s:%d:%d" % (span["f"], span["l"], span["c"])
+
+
+
+class Rekey:
+    """Reporter proxy: lets a rule written for one property speak under another property's keys.  Obligations whose key starts with `src`
+    are forwarded with `dst` in its place; counts and floors of the borrowed rule are not repeated."""
+    def __init__(self, rep, src, dst):
+        self._rep, self._src, self._dst = rep, src, dst
+        self.extra = {}
+        self.samples = []
+        self.analysed = {}
+
+    def _key(self, key):
+        return self._dst + key[len(self._src):] if key.startswith(self._src) else None
+
+    def ob(self, key, ok, what, **kw):
+        k = self._key(key)
+        if k is not None:
+            kw.pop("sample", None)
+            self._rep.ob(k, ok, what, **kw)
+
+    def unprovable(self, key, what, **kw):
+        k = self._key(key)
+        if k is not None:
+            self._rep.unprovable(k, what, **kw)
+
+    def count(self, *a, **k):
+        pass
+
+    def floor(self, *a, **k):
+        pass
